@@ -405,6 +405,70 @@ pub fn test_grammar_jobs() -> Vec<Job> {
     ];
     let inputs_reporting: [&str; 9] = ["", "a", "b", "c", "x", "aa", "ab", "bb", "ba"];
     let mut jobs = vec![];
+    // scale: tokens of more than a thousand characters matched by one flat repetition
+    {
+        let text = std::fs::read_to_string("/repo/vm/tests/grammar.pest").unwrap_or_default();
+        let long: [(&str, String); 6] = [
+            ("repeat_atomic", "abc".repeat(400)),
+            ("repeat_once_atomic", "abc".repeat(700)),
+            ("repeat", "abc".repeat(400)),
+            ("ascii_digits", "7".repeat(2500)),
+            ("asciis", "x".repeat(3000)),
+            ("ascii_alphanumerics", "a1".repeat(1100)),
+        ];
+        for (rule, input) in long {
+            jobs.push(Job {
+                backend: Backend::Test {
+                    grammar: "grammar".into(),
+                    rule: rule.to_string(),
+                },
+                input: input.clone(),
+            });
+            if !text.is_empty() {
+                jobs.push(Job {
+                    backend: Backend::Vm {
+                        grammar: text.clone(),
+                        rule: rule.to_string(),
+                    },
+                    input,
+                });
+            }
+        }
+    }
+    // hand-written scale member of the build-time family, through the generated parser and the VM
+    {
+        let idx = family::FAMILY_GENERATED;
+        let text = family::FAMILY_TEXTS[idx].to_string();
+        let scale: Vec<(&str, String)> = vec![
+            ("flat_digits", format!("x{}", "7".repeat(1500))),
+            ("flat_digits", format!("x{}", "7".repeat(3000))),
+            ("flat_range", "abc".repeat(500)),
+            ("flat_range", format!("{}!", "abc".repeat(700))),
+            ("flat_until", format!("q{}", "y".repeat(2500))),
+            ("flat_opt", format!("k{}w", "v".repeat(1300))),
+            ("opt_nest", format!("{}{}", "[".repeat(150), "]".repeat(150))),
+            ("opt_nest", format!("{}{}", "[".repeat(300), "]".repeat(300))),
+            ("opt_nest", format!("{}{}", "[".repeat(600), "]".repeat(600))),
+            ("rep_nest", format!("{}{}", "(".repeat(280), ")".repeat(280))),
+            ("neg_nest", format!("{}.{}", "<".repeat(270), ">".repeat(270))),
+        ];
+        for (rule, input) in scale {
+            jobs.push(Job {
+                backend: Backend::Gen {
+                    index: idx,
+                    rule: rule.to_string(),
+                },
+                input: input.clone(),
+            });
+            jobs.push(Job {
+                backend: Backend::Vm {
+                    grammar: text.clone(),
+                    rule: rule.to_string(),
+                },
+                input,
+            });
+        }
+    }
     for (g, file, inputs) in [
         ("grammar", "/repo/vm/tests/grammar.pest", &inputs_grammar[..]),
         ("lists", "/repo/vm/tests/lists.pest", &inputs_lists[..]),
@@ -512,6 +576,17 @@ pub fn fixed_corpus() -> Corpus {
     ];
     for d in meta_docs {
         docs.push((Backend::Meta, read("/repo/meta/src/grammar.pest").map(|t| (t, "grammar_rules")), d));
+    }
+    // scale: one very long line (error text, positions beyond 65535), deep nesting (hundreds of
+    // open constructs when a refusal strikes)
+    let long_array = format!("[{}1]", "1,".repeat(3000));
+    docs.push((Backend::Json, g("json").map(|t| (t, "json")), long_array.clone()));
+    docs.push((Backend::Json, g("json").map(|t| (t, "json")), format!("{}x", &long_array[..long_array.len() - 1])));
+    for depth in [130usize, 270, 520] {
+        let nested = format!("a = {}1{}\n", "[".repeat(depth), "]".repeat(depth));
+        docs.push((Backend::Toml, g("toml").map(|t| (t, "toml")), nested));
+        let nested_json = format!("{}1{}", "[".repeat(depth), "]".repeat(depth));
+        docs.push((Backend::Json, g("json").map(|t| (t, "json")), nested_json));
     }
     for (be, vm, doc) in docs {
         let mut variants = vec![doc.clone()];
